@@ -456,6 +456,34 @@ def _co_scenario(r, ses):
     return reqs
 
 
+def _carve_scenario(r, ses):
+    """directed family: a page query over a webentity with several folders is suspended after a few steps, then a rule
+    installation carves new webentities out of folders the traversal has not reached yet and a crawl batch adds pages
+    below them, then the query is resumed (stale traversal state of any kind shows here)"""
+    dom = b"s:http|h:com|h:" + r.choice([b"site", b"m", b"zz"]) + b"|"
+    folders = r.sample([b"p:a|", b"p:m|", b"p:zzz|", b"p:k|", b"p:b|", b"p:x|"], r.randint(2, 4))
+    ses.do("create " + brack([hx(dom)]))
+    pages = []
+    for f in folders:
+        for j in range(r.randint(1, 3)):
+            pages.append(dom + f + b"p:%d|" % j)
+    r.shuffle(pages)
+    for l in pages:
+        ses.note(l); ses.pages.append(l)
+        ses.do("addpage %s %d" % (hx(l), r.randint(0, 1)))
+    m = ses.we_map()
+    w = next((k for k, v in m.items() if dom in v), None)
+    if w is None:
+        return [], []
+    fresh = [dom + r.choice(folders) + b"p:new%d|" % j for j in range(r.randint(1, 3))]
+    data = {fresh[0]: fresh[1:] + ([r.choice(pages)] if r.random() < 0.5 else [])}
+    reqs = [("pages", "%d %s" % (w, brack([hx(p) for p in m[w]])), (w, m[w])),
+            ("rule", "%s %s" % (hx(dom), r.choice(["path1", "path1", "path2"])), None),
+            ("batch", ";".join("%s>%s" % (hx(a), ",".join(hx(t) for t in ts)) for a, ts in data.items()), data)]
+    plan = [0] * r.randint(1, len(pages)) + [1] * 400 + [2] * 400
+    return reqs, plan
+
+
 def extra_C16(tier, seed, scratch, cfg, out):
     from . import model
     hits, nscen, nsteps = [], (140 if tier == "quick" else 1500), 0
@@ -470,11 +498,17 @@ def extra_C16(tier, seed, scratch, cfg, out):
             ses.init()
             for _ in range(r.randint(2, 7)):
                 getattr(ses, "w_" + r.choices(ses.WRITES, [prof["w"].get(k, 1.0) if k in prof["w"] else 1.0 for k in ses.WRITES])[0])()
-            base = list(ses.lines)
-            reqs = _co_scenario(r, ses)
+            carve_plan = None
+            if i % 4 == 3:
+                reqs, carve_plan = _carve_scenario(r, ses)
+                base = list(ses.lines)
+            else:
+                base = list(ses.lines)
+                reqs = _co_scenario(r, ses)
             if len(reqs) < 2:
                 continue
             live = {}
+            scen_known = []
             for cid, (kind, arg, _) in enumerate(reqs):
                 ses.do("co new %d %s %s" % (cid, kind, arg))
                 live[cid] = {"kind": kind, "probes": [], "answer": None, "arg": reqs[cid][2]}
@@ -494,7 +528,9 @@ def extra_C16(tier, seed, scratch, cfg, out):
             order = list(live)
             r.shuffle(order)
             plan = []
-            if block:
+            if carve_plan is not None and r.random() < 0.8:
+                plan = carve_plan
+            elif block:
                 plan = [order[0]] * r.randint(1, 6) + [order[1 % len(order)]] * 200
             while any(st["answer"] is None for st in live.values()):
                 alive = [c for c, st in live.items() if st["answer"] is None]
@@ -558,7 +594,7 @@ def extra_C16(tier, seed, scratch, cfg, out):
                         hits.append({"kind": "co", "lines": lines, "finding": {"reason": "page query misses a page that belonged to the webentity throughout its execution",
                                      "missing": sorted(lower - got)[:3], "schedule": sched}})
                     if not got <= upper:
-                        known_hits.append({"kind": "co", "lines": lines, "finding": {"reason": "page query reports a page that never belonged to the webentity during its execution",
+                        scen_known.append({"kind": "co", "lines": lines, "finding": {"reason": "page query reports a page that never belonged to the webentity during its execution",
                                            "phantom": sorted(got - upper)[:3], "schedule": sched}})
             if st["kind"] == "net" and st["answer"].startswith("ok"):
                 def pairs(a):
@@ -577,7 +613,7 @@ def extra_C16(tier, seed, scratch, cfg, out):
                         hits.append({"kind": "co", "lines": lines, "finding": {"reason": "network query misses a webentity link present throughout its execution",
                                      "missing": sorted(lower - got)[:3], "schedule": sched}})
                     if not got <= upper:
-                        known_hits.append({"kind": "co", "lines": lines, "finding": {"reason": "network query reports a webentity link that existed at no moment of its execution",
+                        scen_known.append({"kind": "co", "lines": lines, "finding": {"reason": "network query reports a webentity link that existed at no moment of its execution",
                                            "phantom": sorted(got - upper)[:3], "schedule": sched}})
         if hits:
             break
@@ -586,14 +622,24 @@ def extra_C16(tier, seed, scratch, cfg, out):
             mres = model.run_lines(lines)
             mism = corr.compare(lines, results, mres, "file")
             out.disagreements += len(mism)
+            if mism and scen_known:
+                # F16 is the phantom the executable model of the unchanged generators reproduces on the same schedule; a
+                # phantom on a schedule where the implementation has left the model is a different violation
+                h = scen_known[0]
+                h["finding"]["reason"] = ("a query advanced in turns reports an item that qualified at no moment of its execution, and not by the "
+                                          "known mechanism: the model of the unchanged generators disagrees on this schedule (%s)" % mism[0].what)
+                hits.append(h)
+                break
             if mism:
                 m = mism[0]
                 hits.append({"kind": "no-failing-input-found", "lines": lines[: m.idx + 1],
                              "no_longer_checks": ["correspondence slice of C16 (generator sections under a schedule): model and implementation disagree on '%s' (%s)" % (m.line[:60], m.what)],
                              "disagreement": m.to_json()})
                 break
+            known_hits += scen_known
         except Exception as e:  # noqa
             out.notes.append("model driver unavailable for C16: %r" % e)
+            known_hits += scen_known
     out.extra["C16"] = {"scenarios": nscen, "generator_steps": nsteps, "phantom_items_seen": len(known_hits)}
     real = [h for h in hits if h["kind"] != "no-failing-input-found"]
     return (real[:2] or hits[:1]) + known_hits[:1]
